@@ -525,6 +525,7 @@ type minInst struct {
 	nilMethod  bool // pass method == nil: Minimize picks LBFGS (with Grad) or NelderMead
 	prime      int  // the method value is reused: a first Minimize call, stopped by 1 func / 2 grad / 3 hess limit or 4 Problem.Status, precedes the run under test
 	primeN     int
+	primeNaN   bool // the earlier run ends because its gradient turns NaN
 }
 
 // minCorpus: instances on which a repaired defect was first seen and that the
@@ -534,24 +535,32 @@ var minCorpus = []struct {
 	method, ls int
 	a          []float64 // upper triangle, row major
 	b, x0      []float64
+	reuse      bool // the method value has been through a run whose gradient turned NaN
 }{
 	// finding 25 (d6ea6ba): CG gives up far from the minimizer
-	{mCGPRP, 3, []float64{2, -1, 3}, []float64{0, -2}, []float64{-4, -4}},
-	{mCGPRP, 2, []float64{2, 1, 3}, []float64{-3, 1}, []float64{-4, 2}},
-	{mCGHS, 1, []float64{6, 1, 2}, []float64{-2, -3}, []float64{1, -4}},
+	{mCGPRP, 3, []float64{2, -1, 3}, []float64{0, -2}, []float64{-4, -4}, false},
+	{mCGPRP, 2, []float64{2, 1, 3}, []float64{-3, 1}, []float64{-4, 2}, false},
+	{mCGHS, 1, []float64{6, 1, 2}, []float64{-2, -3}, []float64{1, -4}, false},
 	// finding 10 (8a7acce): MoreThuente collapsed at rounding level
-	{mGD, 3, []float64{5, 2, 6}, []float64{-1, -3}, []float64{-1.5, -0.5}},
-	{mCGPRP, 0, []float64{6, -5, 6}, []float64{3, 2}, []float64{-2, 2.5}},
+	{mGD, 3, []float64{5, 2, 6}, []float64{-1, -3}, []float64{-1.5, -0.5}, false},
+	{mCGPRP, 0, []float64{6, -5, 6}, []float64{3, 2}, []float64{-2, 2.5}, false},
 	// started at the exact minimizer (finding 30)
-	{mBFGS, 0, []float64{2, 1, 3}, []float64{0, 0}, []float64{0, 0}},
-	{mGD, 1, []float64{4, 0, 1}, []float64{4, -1}, []float64{1, -1}},
-	{mLBFGS, 3, []float64{2}, []float64{0}, []float64{0}},
+	{mBFGS, 0, []float64{2, 1, 3}, []float64{0, 0}, []float64{0, 0}, false},
+	{mGD, 1, []float64{4, 0, 1}, []float64{4, -1}, []float64{1, -1}, false},
+	{mLBFGS, 3, []float64{2}, []float64{0}, []float64{0}, false},
+	// a method value reused after a failed run (finding 56)
+	{mLBFGS, 1, []float64{2, 0, 20}, []float64{2, -40}, []float64{3, 1}, true},
+	{mLBFGS, 0, []float64{2, 1, 3}, []float64{1, -1}, []float64{-2, 2}, true},
+	{mBFGS, 1, []float64{2, 0, 20}, []float64{2, -40}, []float64{3, 1}, true},
 }
 
 func corpusMinimize(k int) *minInst {
 	c := minCorpus[k]
 	dim := len(c.b)
 	in := &minInst{method: c.method, ls: c.ls, dim: dim, initX: append([]float64(nil), c.x0...), isolated: 4}
+	if c.reuse {
+		in.prime, in.primeN, in.primeNaN = 1, 50, true
+	}
 	a := mat.NewSymDense(dim, nil)
 	idx := 0
 	for i := 0; i < dim; i++ {
@@ -608,7 +617,10 @@ func drawMinimize(t *simrt.Tape) *minInst {
 		}
 	}
 	defaults := usesLS(in.method) && t.Choose(simrt.KWorkload, 8) == 7
-	if defaults && in.lsKnob == 3 {
+	if defaults && in.lsKnob == 3 && in.method != mNewton {
+		// (Newton's step on a quadratic is exactly 1, the upper end of the
+		// bounded interval: a step at the bound that satisfies the
+		// conditions is a converged search, not a failed one)
 		// a bounded step interval may legitimately end a run far from the
 		// minimizer; the reach-the-minimizer oracle is for unbounded searches
 		in.lsKnob = 0
@@ -789,6 +801,7 @@ func drawMinimize(t *simrt.Tape) *minInst {
 		// possibly interrupted, run left behind
 		in.prime = 1 + t.Choose(simrt.KWorkload, 4)
 		in.primeN = 1 + t.Choose(simrt.KWorkload, 9)
+		in.primeNaN = t.Choose(simrt.KWorkload, 3) == 2
 	}
 	return in
 }
@@ -829,6 +842,7 @@ func (in *minInst) describe(m map[string]interface{}) {
 		m["problem_status"] = fmt.Sprintf("at=%d kind=%d", in.statusAt, in.statusKind)
 	}
 	if in.prime != 0 {
+		m["earlier_run_gradient_turns_nan"] = in.primeNaN
 		m["method_value_reused_after"] = fmt.Sprintf("a run stopped by %s=%d", []string{"", "FuncEvaluations", "GradEvaluations", "HessEvaluations", "Problem.Status at call"}[in.prime], in.primeN)
 	}
 	if in.isolated != 0 {
@@ -882,8 +896,8 @@ func (in *minInst) build() *minRun {
 	case 3:
 		// (knob 3: a bounded step interval; a search that ends at a bound
 		// fails with ErrLinesearcherBound / ErrLinesearcherFailure, as documented)
-		ls = &optimize.MoreThuente{DecreaseFactor: []float64{0, 0.3, 0.05, 0.3}[in.lsKnob], CurvatureFactor: []float64{0, 0.5, 0.1, 0.5}[in.lsKnob],
-			MinimumStep: []float64{0, 0, 0, 1.0 / 256}[in.lsKnob], MaximumStep: []float64{0, 0, 0, 0.75}[in.lsKnob]}
+		ls = &optimize.MoreThuente{DecreaseFactor: []float64{0, 0.3, 0.05, 0}[in.lsKnob], CurvatureFactor: []float64{0, 0.5, 0.1, 0}[in.lsKnob],
+			MinimumStep: []float64{0, 0, 0, 1.0 / 256}[in.lsKnob], MaximumStep: []float64{0, 0, 0, 1}[in.lsKnob]}
 	}
 	// tuning knobs: correctness must not depend on one configuration
 	gst := []float64{0, 1e-4, 0, math.NaN()}[in.knob]
@@ -1116,11 +1130,28 @@ func (r *minRun) primeMethod() {
 	p := optimize.Problem{Func: func(x []float64) float64 { return o.F(x) }}
 	if r.prob.Grad != nil {
 		p.Grad = func(g, x []float64) { o.Grad(g, x) }
+		if in.primeNaN {
+			// the earlier problem's gradient turns NaN after a few
+			// evaluations while its value stays finite: that run fails, and
+			// nothing of it may survive the next Init
+			k := 0
+			p.Grad = func(g, x []float64) {
+				o.Grad(g, x)
+				if k++; k > 2 {
+					for i := range g {
+						g[i] = math.NaN()
+					}
+				}
+			}
+		}
 	}
 	if r.prob.Hess != nil {
 		p.Hess = func(h *mat.SymDense, x []float64) { o.hess(h, x) }
 	}
 	set := optimize.Settings{Concurrent: in.conc, FuncEvaluations: 200, Converger: optimize.NeverTerminate{}}
+	if in.primeNaN {
+		set.FuncEvaluations, set.GradEvaluations, set.HessEvaluations = 200, 0, 0
+	}
 	switch in.prime {
 	case 1:
 		set.FuncEvaluations = in.primeN
@@ -1879,7 +1910,7 @@ func checkC19(rc *RunCtx, in *minInst, r *minRun, nTasks int) *Violation {
 	// default tests (gradient 1e-12, F unchanged by 1e-10 for 100 iterations).
 	// (also when the run ends with a line-search failure: at the default
 	// tolerances that happens at rounding level, next to the minimizer)
-	if in.isolated == 4 && in.prime == 0 && res != nil && st.MajorIterations > 0 {
+	if in.isolated == 4 && (in.prime == 0 || in.primeNaN) && res != nil && st.MajorIterations > 0 {
 		rc.oracle("default-settings-reach-minimizer")
 		var ch mat.Cholesky
 		if ch.Factorize(in.obj.qa) {
